@@ -71,3 +71,10 @@ Definition verdict_edit (c : list param * string * list param) : list (N * N) :=
                + bit (negb (valid_sig before)) 4 in
       if j =? 0 then [] else [(0, j)]
   end.
+
+(** ** part 3: the text level.  A case carries the document's bytes, the byte offset of the name
+    of the starred first parameter (CPython) and the offset the server's edit inserts at *)
+Definition verdict_star (c : list N * nat * nat) : list (N * N) :=
+  match c with
+  | (bytes, name_start, impl) => if Nat.eqb (star_start bytes name_start) impl then [] else [(0, 1)]
+  end.
